@@ -103,6 +103,18 @@ def large_patterns(chk, tier, seed, names):
     for (h, w) in shapes:
         for act in chains(rng, h, w, 4 if tier == "quick" else 30):
             recs.append({"t": len(recs), "h": h, "w": w, "active": act})
+    # diagonal TREES (a cell with three or four active diagonal neighbours, arms extended): not chains
+    for (h, w) in ([(4, 5), (5, 5)] if tier == "quick" else [(4, 5), (5, 4), (5, 5), (6, 6), (7, 7)]):
+        for cy in range(1, h - 1):
+            for cx in range(1, w - 1):
+                arms = [(cy + dy, cx + dx) for dy in (-1, 1) for dx in (-1, 1)]
+                for drop in (None, 0, 1, 2, 3):
+                    cells = [(cy, cx)] + [a for i, a in enumerate(arms) if i != drop]
+                    ext = [(y + (y - cy), x + (x - cx)) for (y, x) in cells[1:]]
+                    for extra in ([], [e for e in ext if 0 <= e[0] < h and 0 <= e[1] < w][:2]):
+                        act = sorted({y * w + x for (y, x) in cells + extra})
+                        if (cy + cx + (drop or 0)) % (1 if tier != "quick" else 2) == 0:
+                            recs.append({"t": len(recs), "h": h, "w": w, "active": act})
     path = chk.dir / "patterns.ndjson"
     write_ndjson(path, recs)
     res = run_tlc("Trace_Patterns", "Trace_Patterns", workdir=chk.dir, env={"TRACE_FILE": str(path)}, timeout=3000, workers=4)
